@@ -103,6 +103,10 @@ fn build(items: Vec<Item>, slots: &[(String, String)], assign: &[usize], style_s
             let mut path = vec![root.clone()];
             path.extend(mod_path(&rel));
             let mut style = STYLES[style_seed.get(k).copied().unwrap_or(0) as usize % STYLES.len()];
+            // the planted generic holder (see the strategy) is there for nested qualified paths: `a::NestPage<b::NestTag>`
+            if r.starts_with("Nest") && style_seed.get(k).copied().unwrap_or(0) % 4 != 0 {
+                style = if style_seed.get(k).copied().unwrap_or(0) % 4 == 1 { RefStyle::ViaModule } else { RefStyle::Qualified };
+            }
             k += 1;
             // the module form needs a module between the crate and the type, and only makes sense across crates
             if style == RefStyle::ViaModule && (path.len() < 2 || same_crate) {
@@ -191,8 +195,22 @@ impl SubCheck for C14 {
         g.generics = true;
         g.wrappers = false;
         g.foreign_types = true;
-        (gen::program(&g), ws::slots(1..=5, 1..=8), proptest::collection::vec(0usize..8, 12), proptest::collection::vec(any::<u8>(), 64), ws::lang_strategy(), 0usize..4)
-            .prop_map(|(items, slots, assign, style_seed, lang, map_foreign)| {
+        (gen::program(&g), ws::slots(1..=5, 1..=8), proptest::collection::vec(0usize..8, 16), proptest::collection::vec(any::<u8>(), 64), ws::lang_strategy(), 0usize..4, any::<bool>())
+            .prop_map(|(mut items, slots, assign, style_seed, lang, map_foreign, plant_nested)| {
+                // a generic type of one file instantiated with a type of another, held by a third item: when both are named by
+                // qualified paths the inner one occurs only inside the generic arguments of the outer path
+                if plant_nested && !items.iter().any(|i| i.name.starts_with("Nest")) {
+                    let mut page = Item::new("NestPage", Kind::Struct { shape: Shape::Named(vec![Field::new("inner", Ty::Param("T".into())), Field::new("total", Ty::Prim(Prim::U32))]), rename_all: None });
+                    page.generics = vec!["T".into()];
+                    let tag = Item::new("NestTag", Kind::Struct { shape: Shape::Named(vec![Field::new("label", Ty::Prim(Prim::String))]), rename_all: None });
+                    let arg = || Ty::User { name: "NestTag".into(), args: vec![] };
+                    let nested = Ty::User { name: "NestPage".into(), args: vec![if style_seed[0] % 2 == 0 { arg() } else { Ty::Vec(Box::new(arg())) }] };
+                    let holder = Item::new("NestHolder", Kind::Struct { shape: Shape::Named(vec![Field::new("nested", if style_seed[1] % 2 == 0 { nested } else { Ty::Opt(Box::new(nested)) })]), rename_all: None });
+                    let at = items.len() / 2;
+                    items.insert(0, page);
+                    items.insert(at, tag);
+                    items.push(holder);
+                }
                 let (ws, styles) = build(items, &slots, &assign, &style_seed);
                 let mut mapped: Vec<String> = if map_foreign > 0 { vec!["Uuid".into(), "ForeignGen".into()] } else { vec![] };
                 // half of the mapped tables also map a typeshared type that another file refers to (by `use` or by a qualified
@@ -497,7 +515,7 @@ impl SubCheck for C14 {
 }
 
 pub fn run(run: &Run) {
-    run.set_rule("workspaces of 1-5 crates (directory names with - / _ / digits), files at depth 0-3 under <crate>/src, 3-12 uniquely named items with random references; every reference to an item in another file gets the `use` (single, grouped, nested group, glob) or qualified path a compiling program would need - crate:: paths inside a crate, <other_crate>::.. across crates; serde-renamed targets; optional type mappings of foreign types and of one typeshared type that another file refers to (mapped types must not be imported); one language per case through the real binary with -d. Oracle: (1) one output file per crate with annotated items, named after the crate (dashes as underscores; case-insensitive for Swift), every item defined in exactly that file; (2) the definitions across all files equal single-file mode's for the same sources (compared as recovered declarations); (3) TS / Kotlin: every reference from file F to an item defined in G != F is imported by exactly that name from exactly G, no import names something its module does not define, nothing is imported from the own module. Non-trivial = >= 2 crates and >= 1 cross-crate reference.");
+    run.set_rule("workspaces of 1-5 crates (directory names with - / _ / digits), files at depth 0-3 under <crate>/src, 3-12 uniquely named items with random references; half of the workspaces also hold a generic type instantiated with a type of another file by a third item (nested qualified paths `a::P<b::T>`); every reference to an item in another file gets the `use` (single, grouped, nested group, glob) or qualified path a compiling program would need - crate:: paths inside a crate, <other_crate>::.. across crates; serde-renamed targets; optional type mappings of foreign types and of one typeshared type that another file refers to (mapped types must not be imported); one language per case through the real binary with -d. Oracle: (1) one output file per crate with annotated items, named after the crate (dashes as underscores; case-insensitive for Swift), every item defined in exactly that file; (2) the definitions across all files equal single-file mode's for the same sources (compared as recovered declarations); (3) TS / Kotlin: every reference from file F to an item defined in G != F is imported by exactly that name from exactly G, no import names something its module does not define, nothing is imported from the own module. Non-trivial = >= 2 crates and >= 1 cross-crate reference.");
     run.assume("item names are unique across the workspace (same-named types in different crates are outside this generator)");
     if !cli::bin_available() {
         run.inconclusive("typeshare binary not built");
